@@ -144,6 +144,8 @@ op("list_keys", "X", "D", "list({0}.keys())")
 op("list_items", "X", "D", "list({0}.items())")
 op("comp_add", "L", "IL", "[x + {0} for x in {1}]")
 op("comp_addT", "L", "IT", "[x + {0} for x in {1}]")
+op("comp_idL", "L", "L", "[x for x in {0}]")
+op("comp_idT", "L", "T", "[x for x in {0}]")
 op("comp_filter", "L", "LI", "[x for x in {0} if x > {1}]")
 op("comp_filter2", "L", "LI", "[x * 2 for x in {0} if x != {1} if x > 0]")
 op("comp_filter_const", "L", "LB", "[x for x in {0} if {1}]")
